@@ -48,6 +48,10 @@ SPEC_TEXTS = [
     ("transparent@127.0.0.2:8089", "ProxyMode"),                     # 24
     ("regular@8080@8090", "ProxyMode"),                              # 25 two "@": outside the grammar's unique reading
     ("reverse:b.example:443@8091", "ProxyMode"),                     # 26 no scheme (default https)
+    ("regular@65536", "ProxyMode"),                                  # 27
+    ("socks5@127.0.0.1:65535", "ProxyMode"),                         # 28
+    ("regular:@8092", "regular"),                                    # 29 empty configuration
+    ("upstream:https://b.example/@::1:8093", "upstream"),            # 30
 ]
 
 
@@ -68,6 +72,10 @@ def tla_world(w):
 
 def ext(tp, host, port):
     return FrozenDict({"tp": tp, "host": host, "port": port})
+
+
+def dest(host, port, tp):
+    return FrozenDict({"host": host, "port": port, "tp": tp})
 
 
 U5353 = ext("udp", "0.0.0.0", 5353)
@@ -101,6 +109,15 @@ def runs_for(tier):
                              "reverse:udp://a.example:9@127.0.0.1:8083"], fp6=True),
              configs=[(1,)] if q else [(1,), (2,)], ext=[U5353], alone=[2, 3, 4] if q else [2, 3, 4, 5],
              ops=["SetMode", "Make", "IStart", "IStop", "ExtBind", "ExtFree"]),
+        # server_connect fed by the real instances' listen_addrs
+        dict(tag="_connect", started=True, maxops=4 if q else 5,
+             world=mk_world(["regular@8080", "dns@5353", "reverse:https://a.example@0",
+                             "reverse:udp://a.example:9@127.0.0.1:8083", "regular@127.0.0.2:8081"]),
+             configs=[(1, 2), (3,), (4, 5)], ext=[], alone=[],
+             dests=[dest("127.0.0.1", 8080, "tcp"), dest("127.0.0.1", 8080, "udp"), dest("localhost", 5353, "udp"),
+                    dest("::1", 40001, "tcp"), dest("127.0.0.1", 8083, "tcp"), dest("127.0.0.1", 9999, "tcp")]
+             + ([] if q else [dest("127.0.0.1", 40001, "udp"), dest("127.0.0.1", 8083, "udp"), dest("127.0.0.1", 8081, "tcp")]),
+             ops=["SetMode", "Connect", "SetServer"]),
         # no IPv6; listen_host / listen_port options
         dict(tag="_nov6", started=True, maxops=3 if q else 4,
              world=mk_world(["regular@8080", ("socks5", "socks5"), "reverse:http://a.example:8000@::1:8081",
@@ -134,6 +151,8 @@ def ops_of(beh):
             ops.append(["ext_free", args[0]["tp"], args[0]["host"], args[0]["port"]])
         elif name == "Make":
             ops.append(["make", args[0]])
+        elif name == "Connect":
+            ops.append(["connect", args[0]["host"], args[0]["port"], args[0]["tp"]])
         elif name == "IStart":
             ops.append(["istart"])
         elif name == "IStop":
@@ -155,7 +174,7 @@ class Check(core.PropertyCheck):
         "update_in_progress", "option_changed_during_update", "port_reused_after_stop", "port_held_by_other_process",
         "port_held_by_own_instance", "bind_ok", "bind_EADDRINUSE", "bind_EACCES", "bind_EADDRNOTAVAIL", "bind_EAI",
         "dual_transport", "port_zero", "explicit_host", "direct_start", "direct_start_failed", "direct_stop",
-        "start_after_fallback")
+        "start_after_fallback", "self_connect_refused", "other_connect_allowed", "self_connect_ephemeral_port")
     REQUIRED_ACTIONS = ()
     ASSUMPTIONS = (
         "the operating system is the fake of lib/vf/modenet.py: asyncio.start_server, mitmproxy_rs.udp.start_udp_server, "
@@ -180,7 +199,7 @@ class Check(core.PropertyCheck):
 
     def _constants(self, r):
         return {"World": tla_world(r["world"]), "Configs": frozenset(tuple(c) for c in r["configs"]),
-                "ExtAddrs": frozenset(r["ext"]), "Alone": frozenset(r["alone"]), "Started": bool(r["started"]), "Ops": frozenset(r["ops"]),
+                "ExtAddrs": frozenset(r["ext"]), "Alone": frozenset(r["alone"]), "Dests": frozenset(r.get("dests", [])), "Started": bool(r["started"]), "Ops": frozenset(r["ops"]),
                 "MaxOps": r["maxops"], "MaxGen": 2 * r["maxops"] + 6}
 
     def model_constants(self, tier):
@@ -230,12 +249,20 @@ class Check(core.PropertyCheck):
 
         out = []
         only = os.environ.get("VERIF_X02_ONLY", "").split(",") if os.environ.get("VERIF_X02_ONLY") else None
+        small = {r["tag"]: r for r in runs_for("quick")}
         for r in runs_for(ctx.tier):
             if only and r["tag"] not in only:
                 continue
-            m = self._model_check(ctx, self._constants(r), r["tag"])
-            m.run = r
+            rs = small[r["tag"]]
+            m = self._model_check(ctx, self._constants(rs), rs["tag"])  # dumped graph: edge cover, random walks
+            m.run, m.behs = rs, None
             out.append(m)
+            if not ctx.quick and r["maxops"] > rs["maxops"]:
+                # the deeper instance: exhaustive for the statistics and the reachable bad states, simulated for behaviours
+                mb = self._model_check(ctx, self._constants(r), r["tag"] + "_deep", dump=False)
+                mb.run = r
+                mb.behs, _ = ctx.simulate(self.MODEL, self._constants(r), num=1200, depth=100, tag="sim" + r["tag"], timeout=1800)
+                out.append(mb)
         return out
 
     def scenarios(self, ctx, models):
@@ -243,8 +270,11 @@ class Check(core.PropertyCheck):
         for m in models:
             r = m.run
             g = m.graph
-            behs = g.edge_cover(ctx.rng, max_len=80, tail=10)
-            behs += g.random_walks(ctx.rng, 40 if ctx.quick else 3000, 60)
+            if g is not None:
+                behs = g.edge_cover(ctx.rng, max_len=80, tail=10)
+                behs += g.random_walks(ctx.rng, 40 if ctx.quick else 1500, 60)
+            else:
+                behs = m.behs
             world = dict(r["world"])
             for b in behs:
                 stopped = bool(b[-1][2].get("mon", {}).get("bad"))
@@ -359,8 +389,11 @@ class Check(core.PropertyCheck):
                 ops.append(["setup"])
             elif r < 0.57:
                 ops.append(["running"])
-            elif r < 0.70:
+            elif r < 0.66:
                 ops.append(["release_any"])
+            elif r < 0.72:
+                ops.append(["connect", rng.choice(["127.0.0.1", "localhost", "::1", "127.0.0.2", "example.com", "0.0.0.0"]),
+                            rng.choice([8080, 8081, 5353, 8443, 40001, 40002, 9999]), rng.choice(["tcp", "udp"])])
             elif r < 0.76 and not ops[-1:] == [["set_mode"]]:
                 e = rng.choice(exts)
                 if e not in held and len(ops) <= 2:
